@@ -2142,7 +2142,7 @@ def fx_family(ctx: Ctx, drv: Optional[Driver]) -> None:
     fx_pend: list = []
 
     def tie(case: dict, xml: str, form: str, parser: str) -> None:
-        """Model/FixedCC.lean `libErr` on (obj.text, len(obj)) of every fixed mixed element of the parsed document against
+        """Model/FixedCC.lean `libErr` on (character data, number of element children) of every fixed mixed element of the parsed document against
         'an error "must have the fixed value" is reported at that element' (theorems fixed_lib_iff_spec,
         fixed_extra_child_reported, fixed_text_change_reported speak about libErr)"""
         if drv is None:
@@ -2157,7 +2157,11 @@ def fx_family(ctx: Ctx, drv: Optional[Driver]) -> None:
         els, real = [], []
         for ch in source.root:
             if ch.tag in ('fm', 'fc', 'fz'):
-                els.append([ch.text, len(ch)])
+                # (element children, character data): comment / PI nodes kept by lxml are not element children and only
+                # split the character data (fix C19-F5, dce758b)
+                kids = sum(1 for c in ch if isinstance(c.tag, str))
+                text = ch.text if kids else (((ch.text or '') + ''.join(c.tail or '' for c in ch)) or None)
+                els.append([text, kids])
                 real.append(any(e.elem is ch and 'must have the fixed value' in str(e.reason) for e in errors))
         if els:
             fx_reqs.append({'op': 'fixedcc', 'fixed': FX_TEXT, 'els': els})
@@ -2227,11 +2231,10 @@ def fx_family(ctx: Ctx, drv: Optional[Driver]) -> None:
                             mut(lambda x: x.update(t='07' if x['t'] != '07' else '+7')), pos))
             if 'k' in n['a'] or nm in ('fm', 'dm', 'nm', 'fsc'):
                 ops.append(('bad value of an attribute', 'bad attribute value', mut(lambda x: x['a'].update(k='x9')), pos))
-            if not (fixed and mixed):
-                # (lxml keeps comments / PIs as children: a FIXED MIXED element with one is refused through lxml only, a
-                # false 'must have the fixed value' on a valid document -- reported, not generated)
-                ops.append(('add a comment / processing instruction', None,
-                            mut(lambda x: x.update(raw=rng.choice(['<!--c-->', '<?p i?>']))), pos))
+            # (lxml keeps comments / PIs as children: a fixed mixed element with one was refused through lxml only,
+            # finding C19-F5, fixed by dce758b: generated for every element, the defect coming back is a failing input)
+            ops.append(('add a comment / processing instruction', None,
+                        mut(lambda x: x.update(raw=rng.choice(['<!--c-->', '<?p i?>']))), pos))
         for op, kind, m, damaged in ops:
             xml = fx_ser(m)
             nm = m['c'][damaged[0]]['n']
